@@ -1010,6 +1010,31 @@ def list_writer_keeps_order(F, rep):
     rep.count("list_writers", [t.short for t in tops])
 
 
+def currency_kept_as_written(F, rep):
+    """R1 (the code that is read is the code that was written): in the DSL parser, the DSL writer and the money type's own
+    (de)serialisers a currency is only ever LOOKED UP (`Currency::from_code`) or copied — no other function of the ISO table that yields
+    a currency (`is_superseded`, `from_numeric`, `from_country`, …) is applied on the way. A parser that resolves a withdrawn code to its
+    successor reads `75.50 HRK` back as 75.50 EUR, while the writer and the JSON reader keep HRK (seeded change C14-s10)."""
+    n, bad = 0, []
+    for b in F.bodies.values():
+        if not ("cgt_core::parser" in b.id or "cgt_core::dsl" in b.id or "cgt_money::amount" in b.id) or "::tests::" in b.id:
+            continue
+        for i, t in b.calls():
+            if "iso_currency" not in t["callee"]:
+                continue
+            m = parse_callee(t["callee"])[2]
+            if m == "from_code":
+                n += 1
+                continue
+            if re.search(r"iso_currency::Currency(?![A-Za-z_])", t.get("dty") or "") and m not in ("clone", "from_code", "borrow", "deref", "as_ref"):
+                bad.append((b, t, m))
+    rep.ob("R1", "currency:kept-as-written", not bad, f"{n} ISO look-ups in the DSL parser and the money (de)serialisers, no other currency-valued function of the ISO table is applied" if not bad else
+           "; ".join(f"`{b.short}` applies `Currency::{m}`" for b, t, m in bad[:3]) + ": the currency that is read is not the one that was written — "
+           "the round trip returns another code for some amounts", bad[0][0].loc(bad[0][1]["sp"]) if bad else "", key="R1:currency:rewritten-on-read")
+    if n < 2:
+        rep.unresolved("R1", "currency-lookups", f"only {n} Currency::from_code sites found in the DSL parser / money deserialiser (2 expected)")
+
+
 def run(ctx, rep):
     if ctx.S is None or "error" in ctx.S["grammar"]:
         rep.unresolved("R1", "grammar", "grammar facts unavailable")
@@ -1026,6 +1051,7 @@ def run(ctx, rep):
         for o in r2.obligations:
             rep.ob("R1", "reader:" + o["instance"], o["ok"], o["detail"], o["site"], key="R1:reader:" + o["instance"])
     list_writer_keeps_order(ctx.F, rep)
+    currency_kept_as_written(ctx.F, rep)
     json_names(ctx.F, rep)
     json_reader_domain(ctx.F, rep)
     token_conversions(ctx.F, rep)
